@@ -21,6 +21,7 @@ def run(ctx):
     items = [{"G": d} for d in descs]
     with Pool(seeds=hash_seeds(ctx), init="engines.gwork:init", recycle=20000) as pool:
         outs = pool.map("engines.gwork:eval_ids", items)
+        marked = pool.map("engines.gwork:eval_marked", [{}])[0]
     by_id, by_raw = {}, {}
     for it, o in zip(items, outs):
         if "error" in o:
@@ -37,11 +38,27 @@ def run(ctx):
                 res.violation(f"collision:{what}:{family(gs[0], gs[1])}",
                               f"{len(sigs)} different signatures share the {what} identifier {ident[:16]}: {json.dumps(gs[0])[:600]}  ||  {json.dumps(gs[1])[:600]}",
                               {"A": gs[0], "B": gs[1], "identifier": ident, "which": what})
+    # add-on family: a task output that is one of the task's own (sealed, already identified) parameter configurations
+    mk = {}
+    for r in marked:
+        if "error" in r:
+            res.violation("identifier-raises:marked-parameter", json.dumps(r)[:800], {"marked": r})
+            continue
+        for what in ("id", "raw"):
+            mk.setdefault((what, r[what]), {}).setdefault(r["sig"], r)
+    for (what, ident), sigs in mk.items():
+        if len(sigs) > 1:
+            a, b = list(sigs)[:2]
+            res.violation(f"collision:{'full' if what == 'id' else 'raw'}:marked-parameter",
+                          f"(embedder, leaf value, producing task) {a} and {b} share the identifier {ident[:16]} (histories {sigs[a]['hist']}, {sigs[b]['hist']})",
+                          {"marked": [sigs[a], sigs[b]]})
     res.coverage = {
-        "evaluations": len(descs),
+        "marked_parameter_family": {"cases": len(marked), "distinct_signatures": len({r.get("sig") for r in marked if "sig" in r})},
+        "evaluations": len(descs) + len(marked),
         "distinct_nontrivial": len(by_id),
         "rule": "every description within (N, k) of the default graphs and seeds (value alphabets chosen so that concatenations, container "
-                "boundaries, key/value moves and prefix-related names collide if the encoding lets them); real identifiers grouped, every "
+                "boundaries, key/value moves and prefix-related names collide if the encoding lets them), plus the family 'task output = own "
+                "parameter of the producing task, marked after it was sealed and identified' (9 embedders x 2 values x 5 producers x 4 request histories); real identifiers grouped, every "
                 "group must carry exactly one canonical signature (full and raw identifiers separately); distinct_nontrivial = distinct identifiers",
         "samples": clip_samples([descs[3], descs[len(descs) // 2]]),
         "exhaustive": not capped,
@@ -76,6 +93,11 @@ def family(A, B):
 def replay(ctx, payload):
     from . import gwork, refmodel as R
     gwork.init()
+    if "marked" in payload:
+        print(json.dumps(payload["marked"], indent=1))
+        for r in gwork.eval_marked({}):
+            print(r)
+        return 0
     for k in ("A", "B"):
         G = payload[k]
         print(k, json.dumps(G), gwork.eval_ids({"G": G}), "signature:", R.signature(G))
